@@ -27,7 +27,7 @@ use serde::{Deserialize, Serialize};
 use serde_json::json;
 use square::*;
 
-const RULE: &str = "squares: EDS width w in {4,8} (quick) / {4,8,16,32} (thorough) x 2 namespace layouts x {honest} ∪ {corrupted: axis type x index in {0,k-1,k,w-1} x pattern in {first cell, last cell, k+1 left cells, k+1 alternating cells, all cells} trashed, roots recomputed}; \
+const RULE: &str = "squares: EDS width w in {4,8} (quick) / {4,8,16,32} (thorough) x 2 namespace layouts x {honest} ∪ {honest with an unsupported namespace version in the original shares, w<=8} ∪ {corrupted: axis type x index in {0,k-1,k,w-1} x pattern in {first cell, last cell, k+1 left cells, k+1 alternating cells, all cells: payload bytes trashed; last cell: all 512 bytes replaced}, roots recomputed}; \
 claims: every (axis type, index) for w<=8, indices {0,1,k-1,k,w-1} ∪ corrupted index beyond; \
 proof families per claim: own[presence masks x proof-axis mixes] (w=4: all 16 masks x all 16 mixes; w=8: full, every k-subset, k+1/k-1 left (quick) or all 256 masks (thorough) x {all-row, all-col, alternating, alternating'}; w>=16: full, left, right, even, odd, every contiguous k-window, k-1 left + last, k+1 left, k-1 left x 4 mixes); \
 swap[every pair a<b exchanged, each share keeping its own valid proof; same-axis / orthogonal / same-axis with range rewritten to the new position; all present / only k present]; \
@@ -87,6 +87,7 @@ fn pattern_positions(pattern: u8, w: usize) -> Vec<usize> {
     match pattern {
         0 => vec![0],
         1 => vec![w - 1],
+        5 => vec![w - 1],
         2 => (0..=k).collect(),
         3 => {
             let mut v: Vec<usize> = (0..w).step_by(2).collect();
@@ -111,7 +112,12 @@ fn build_square(spec: &SquareSpec, seed: u64, id: &str) -> SqCtx {
         let mut fill = Fill::new(seed, 0xC07 ^ ((w as u64) << 32) ^ ((c.index as u64) << 16) ^ ((c.axis as u64) << 8) ^ c.pattern as u64);
         for j in pattern_positions(c.pattern, w) {
             let (r, col) = Sq::coord(Ax::from_i(c.axis as u64), c.index, j);
-            trash_payload(&mut cells[r * w + col], &mut fill);
+            if c.pattern == 5 {
+                // whole (parity) share replaced, namespace-prefix bytes included
+                cells[r * w + col] = fill.bytes(SHARE);
+            } else {
+                trash_payload(&mut cells[r * w + col], &mut fill);
+            }
         }
     }
     let sq = Sq::from_cells(cells, w);
@@ -119,10 +125,13 @@ fn build_square(spec: &SquareSpec, seed: u64, id: &str) -> SqCtx {
     let cols: Vec<NamespacedHash> = (0..w).map(|i| to_hash(&sq.root(Ax::Col, i))).collect();
     let dah = DataAvailabilityHeader::new_unchecked(rows, cols);
     // machinery sanity: lumina computes the same roots over the same cells
-    let eds = ExtendedDataSquare::new(sq.cells.clone(), "Leopard".into(), AppVersion::V2)
-        .unwrap_or_else(|e| machinery_error(id, &format!("fixture square refused by ExtendedDataSquare::new: {e}")));
-    if DataAvailabilityHeader::from_eds(&eds) != dah {
-        machinery_error(id, "oracle NMT roots differ from DataAvailabilityHeader::from_eds");
+    // (layout 2 carries a namespace version lumina refuses to load, the roots exist all the same)
+    if spec.layout != 2 {
+        let eds = ExtendedDataSquare::new(sq.cells.clone(), "Leopard".into(), AppVersion::V2)
+            .unwrap_or_else(|e| machinery_error(id, &format!("fixture square refused by ExtendedDataSquare::new: {e}")));
+        if DataAvailabilityHeader::from_eds(&eds) != dah {
+            machinery_error(id, "oracle NMT roots differ from DataAvailabilityHeader::from_eds");
+        }
     }
     let header = ExtendedHeaderGenerator::new().next_with_dah(dah);
     let codeword = [
@@ -227,7 +236,7 @@ fn eval(cx: &SqCtx, pc: &ProofCase, seed: u64, rep: &mut Report) {
         Ok(Err(e)) if e.starts_with("other:") => "reject:other".to_string(),
         Ok(Err(e)) => format!("reject:{e}"),
     };
-    let class = format!("{outcome}/{state}/{}", pc.fam);
+    let class = format!("{state}/{}/{outcome}", pc.fam);
     let case = json!({"seed": seed, "square": cx.spec, "proof": pc});
     let key = fnv64(serde_json::to_string(&json!([cx.spec, pc])).unwrap().as_bytes());
     let nontrivial = in_range && pc.height_delta == 0 && pc.entries.len() == w && present >= k && !outcome.starts_with("reject:decode");
@@ -236,6 +245,11 @@ fn eval(cx: &SqCtx, pc: &ProofCase, seed: u64, rep: &mut Report) {
         rep.sample(|| json!({"case": case, "outcome": outcome, "axis_state": state}));
     }
     match &out {
+        Err(p) if p.contains("left max namespace must be <= right min namespace") => rep.violation(
+            "nmt-hash-nodes-panic",
+            format!("nmt-rs hash_nodes panicked inside NamespaceProof::verify_range ({p})"),
+            case,
+        ),
         Err(p) => rep.violation(
             &format!("validate-panicked:{}", pc.fam),
             format!("BadEncodingFraudProof::validate panicked ({p}); claimed axis is {state}"),
@@ -462,12 +476,20 @@ fn square_specs(tier: Tier) -> Vec<SquareSpec> {
                 corrupt: None,
             });
         }
+        if w <= 8 {
+            // honestly encoded square whose original shares carry an unsupported namespace version
+            v.push(SquareSpec {
+                w,
+                layout: 2,
+                corrupt: None,
+            });
+        }
         for layout in 0..2 {
             let mut idxs = vec![0, k - 1, k, w - 1];
             idxs.dedup();
             for axis in 0..2u8 {
                 for &index in &idxs {
-                    for pattern in 0..5u8 {
+                    for pattern in 0..6u8 {
                         v.push(SquareSpec {
                             w,
                             layout,
@@ -551,16 +573,20 @@ fn spec_of() -> Spec<'static> {
             "wrong height / too few shares on a genuinely bad axis carry no demand (the statement only fixes the verdict for >= half the shares at their own positions)",
         ],
         required_classes: &[
-            "accept/bad/own",
-            "reject:validation/good/own",
-            "reject*/good/swap-same-axis",
-            "reject*/good/swap-reindexed",
-            "reject*/good/dup",
-            "reject*/good/wrong-line",
-            "reject:proof/good/substitute",
-            "reject:proof/good/tamper",
-            "reject*/no-axis/envelope-index",
-            "reject:decode/*",
+            "bad/own/accept",
+            "good/own/reject:validation",
+            "good/swap-same-axis/reject*",
+            "good/swap-orthogonal/reject*",
+            "good/swap-reindexed/reject*",
+            "good/dup/reject*",
+            "good/wrong-line/reject*",
+            "good/substitute/reject:proof",
+            "good/tamper/reject:proof",
+            "good/envelope-height/reject*",
+            "good/envelope-len/reject*",
+            "no-axis/envelope-index/reject:validation",
+            "no-axis/envelope-index/reject:decode",
+            "no-axis/envelope-axis/reject:decode",
         ],
         exhaustive: true,
     }
